@@ -478,6 +478,7 @@ type c18Job struct {
 	Flow  string
 	Tx    bool
 	Pairs bool
+	Deep  bool
 }
 
 func init() {
@@ -506,10 +507,28 @@ func init() {
 		run(c18Case{Flow: j.Flow, Tx: j.Tx, HasCrash: true, Crash: len(trace)})
 		if j.Pairs {
 			// second fault: any later call of the (now different) faulted run; indices beyond its end are simply not reached
+			k1s := []string{"generic", "serialization"}
+			if j.Deep {
+				k1s = c18Kinds
+			}
+			span := len(trace) + 4
 			for i := range trace {
-				for d := 1; d <= 6; d++ {
-					for _, k2 := range []string{"generic", "serialization"} {
-						run(c18Case{Flow: j.Flow, Tx: j.Tx, Faults: []c18F{{Call: i, Name: trace[i], Kind: "generic"}, {Call: i + d, Kind: k2}}})
+				for d := 1; i+d <= span; d++ {
+					for _, k1 := range k1s {
+						for _, k2 := range c18Kinds {
+							run(c18Case{Flow: j.Flow, Tx: j.Tx, Faults: []c18F{{Call: i, Name: trace[i], Kind: k1}, {Call: i + d, Kind: k2}}})
+						}
+					}
+					run(c18Case{Flow: j.Flow, Tx: j.Tx, Faults: []c18F{{Call: i, Name: trace[i], Kind: "generic"}}, HasCrash: true, Crash: i + d})
+				}
+			}
+			if j.Deep {
+				// triples of generic failures
+				for i := range trace {
+					for d1 := 1; i+d1 <= span; d1++ {
+						for d2 := 1; i+d1+d2 <= span; d2++ {
+							run(c18Case{Flow: j.Flow, Tx: j.Tx, Faults: []c18F{{Call: i, Name: trace[i], Kind: "generic"}, {Call: i + d1, Kind: "generic"}, {Call: i + d1 + d2, Kind: "generic"}}})
+						}
 					}
 				}
 			}
@@ -529,11 +548,11 @@ func init() {
 		var jobs []any
 		for _, f := range c18Flows {
 			for _, tx := range []bool{false, true} {
-				jobs = append(jobs, c18Job{Flow: f, Tx: tx, Pairs: true})
+				jobs = append(jobs, c18Job{Flow: f, Tx: tx, Pairs: true, Deep: !r.Quick()})
 			}
 		}
 		r.Bounds = map[string]any{"flows": c18Flows, "stores": []string{"plain (non-transactional)", "transactional with real rollback (snapshot/restore of all tables)"}, "error_kinds": c18Kinds,
-			"single_faults": "every storage call index of the target request (incl. BeginTX / Commit / Rollback) x 4 error kinds", "crash_points": "before every storage call and after the last one", "fault_pairs": "first fault generic at every index x second fault within the next 6 calls x {generic, serialization}"}
+			"single_faults": "every storage call index of the target request (incl. BeginTX / Commit / Rollback) x 4 error kinds", "crash_points": "before every storage call and after the last one", "fault_pairs": "first fault {generic, serialization} (all 4 kinds in thorough) at every index x second fault of every kind at every later index; fault followed by a crash at every later point", "fault_triples": "thorough: three generic failures at all increasing index triples"}
 		r.Rule = "for each flow the storage-call trace of a clean run is recorded; every single fault, every crash point and every listed pair is injected into the real request on a fresh provider, followed by a legitimate retry and attacker variants; distinct = distinct (flow, store, fault site/kind)"
 		r.Assumptions = []string{"not-found / inactive answers injected at lookup calls are indistinguishable from another store state (don't-care)", "record equality after rollback ignores session expiry fields (C07)", "a crash is simulated by unwinding the request at the call boundary; an open transaction is then rolled back as a database would"}
 		res := r.Pool.Do("c18", jobs, r.Deadline)
